@@ -13,7 +13,8 @@ from native import mdibtools as mt
 KINDS = ('metric', 'alert', 'component', 'operational', 'context', 'location', 'rt', 'descr_update', 'descr_create',
          'descr_delete', 'descr_recreate', 'descr_create_siblings', 'descr_delete_siblings', 'mixed_descr_and_state',
          'entity_state', 'entity_context', 'entity_descriptor', 'stale_entity', 'descr_update_context',
-         'entity_descriptor_context', 'entity_remove_recreate', 'entity_new_tree', 'entity_write_many')
+         'entity_descriptor_context', 'entity_remove_recreate', 'entity_new_tree', 'entity_write_many',
+         'context_descr_remove_recreate')
 
 
 class History:
@@ -282,6 +283,27 @@ class History:
         with self.mdib.descriptor_transaction() as tr:
             tr.write_entity(ent)
         return [handle]
+
+    def do_context_descr_remove_recreate(self):
+        """A patient context descriptor with at least two (sometimes three or five) context states is removed - all its
+        states have to go with it - and created again under the same handle in the next transaction."""
+        descr = sorted((d for d in self.mdib.descriptions.objects if d.NODETYPE == pm.PatientContextDescriptor), key=lambda d: d.Handle)
+        if not descr:
+            return self.do_metric()
+        d = self.rnd.choice(descr)
+        want = self.rnd.choice([2, 2, 3, 5])
+        have = len(self.mdib.context_states.descriptor_handle.get(d.Handle, []))
+        if have < want:
+            with self.mdib.context_state_transaction() as tr:
+                for i in range(want - have):
+                    st = tr.mk_context_state(d.Handle, set_associated=(i == 0))
+                    st.CoreData.Givenname = 'Extra%d_%d' % (self.counter, i)
+        copy_d = d.mk_copy()
+        with self.mdib.descriptor_transaction() as tr:
+            tr.remove_descriptor(d.Handle)
+        with self.mdib.descriptor_transaction() as tr:
+            tr.add_descriptor(copy_d)
+        return [d.Handle]
 
     def do_entity_new_tree(self):
         """A new channel with two new metrics below it, created as entities and written with write_entities
